@@ -562,8 +562,9 @@ fn items_wire(items: &[Item]) -> String {
     items.iter().map(|i| i.wire()).collect::<Vec<_>>().join("|")
 }
 
-/// the xlsx file of a description (cells in document order = row-major)
-fn build_file(items: &[Item], layout_seed: u64) -> Vec<u8> {
+/// the xlsx file of a description (cells in document order = row-major) and the XML events of its worksheet
+/// part in the drivers' wire form (`None` when the sheet had to be written as raw XML)
+fn build_file(items: &[Item], layout_seed: u64) -> (Vec<u8>, Option<String>) {
     let mut sh = XlsxSheet::new("S");
     for it in items {
         let (r, c) = it.pos();
@@ -622,7 +623,9 @@ fn build_file(items: &[Item], layout_seed: u64) -> Vec<u8> {
         l.target = p.target;
         l
     };
-    book.build(&layout).bytes
+    let built = book.build(&layout);
+    let wire = built.sheet_events.first().filter(|e| !e.is_empty()).map(|e| verif_harness::xlsxw::ev_wire(e));
+    (built.bytes, wire)
 }
 
 type Cells = Vec<((u32, u32), String)>;
@@ -766,6 +769,7 @@ fn oracle_file(items: &[Item], drv: &mut Driver) -> Option<Cells> {
 }
 
 struct FileOut {
+    from_events: bool,
     imp: String,
     model: String,
     expect: String,
@@ -819,12 +823,25 @@ fn file_sig(items: &[Item], imp: &Result<Cells, String>, want: &Cells) -> String
 }
 
 fn run_file(items: &[Item], layout_seed: u64, drv: &mut Driver) -> FileOut {
+    let (bytes, wire) = build_file(items, layout_seed);
     let imp = if has_huge_si(items) {
         impl_file_child(items, layout_seed)
     } else {
-        impl_file(&build_file(items, layout_seed))
+        impl_file(&bytes)
     };
-    let model = model_file(items, drv);
+    // the model reads the XML events that were written (event-level model of `next_formula`); the abstract
+    // cell-list model (`sheet`) must agree with it (theorem `texts_spec` / `sheet_events_exact`)
+    let abstract_model = model_file(items, drv);
+    let model = match &wire {
+        Some(w) => {
+            let mut r = parse_cells(&drv.ask(&format!("events {w}")));
+            if let Ok(v) = &mut r {
+                v.sort();
+            }
+            r
+        }
+        None => abstract_model.clone(),
+    };
     let want = oracle_file(items, drv);
     let mut fails = vec![];
     if let Some(w) = &want {
@@ -835,6 +852,9 @@ fn run_file(items: &[Item], layout_seed: u64, drv: &mut Driver) -> FileOut {
             fails.push(("model_vs_spec".to_string(), "file:model_differs".to_string()));
         }
     }
+    if model != abstract_model {
+        fails.push(("model_vs_spec".to_string(), "file:event_model_vs_cell_model".to_string()));
+    }
     if imp != model {
         let sig = match &want {
             Some(w) if imp.as_ref().ok() != Some(w) => file_sig(items, &imp, w),
@@ -843,7 +863,8 @@ fn run_file(items: &[Item], layout_seed: u64, drv: &mut Driver) -> FileOut {
         };
         fails.push(("impl_vs_model".to_string(), sig));
     }
-    FileOut { imp: show_cells(&imp), model: show_cells(&model), expect: want.map(|w| show_cells(&Ok(w))).unwrap_or_default(), fails }
+    let from_events = wire.is_some();
+    FileOut { from_events, imp: show_cells(&imp), model: show_cells(&model), expect: want.map(|w| show_cells(&Ok(w))).unwrap_or_default(), fails }
 }
 
 fn shrink_file(mut items: Vec<Item>, layout_seed: u64, kind: &str, sig: &str, drv: &mut Driver) -> Vec<Item> {
@@ -1180,7 +1201,7 @@ fn main() {
         // child mode of `impl_file_child`: read one file with the real reader, print the result
         let q: Vec<&str> = desc.splitn(2, ':').collect();
         let items: Vec<Item> = q[1].split('|').map(Item::parse).collect();
-        println!("{}", show_cells(&impl_file(&build_file(&items, q[0].parse().unwrap()))));
+        println!("{}", show_cells(&impl_file(&build_file(&items, q[0].parse().unwrap()).0)));
         return;
     }
     let args = Args::parse();
@@ -1200,7 +1221,8 @@ fn main() {
          first formula of the group; a member written before its master is outside the generator), si values shuffled with gaps and \
          occasionally huge (up to 2^32-1; such files are read in a child process with a 15 s limit), \
          cells of the range that are not members and cells outside carry values / own formulas / nothing; read with Xlsx::new + \
-         worksheet_formula; oracle = translated master per member, own text elsewhere. non-trivial = unit case with >= 1 reference \
+         worksheet_formula; the Lean model reads the XML events of the written worksheet part (xlsxw ev_wire) and is cross-checked \
+         against the abstract cell-list model; oracle = translated master per member, own text elsewhere. non-trivial = unit case with >= 1 reference \
          and a non-zero offset, or file with >= 1 member cell; distinct by input text",
     );
     rep.notes.push("C15: formula texts are UTF-8; quick-xml entity handling, zip and the xlsx writer (harness/src/xlsxw.rs) are exercised, not modelled".into());
@@ -1367,6 +1389,7 @@ fn file_case(items: &[Item], layout_seed: u64, class: &str, drv: &mut Driver, re
     rep.case(&input, members > 0 && !out.expect.is_empty());
     rep.count(&format!("file.{class}"));
     rep.count(if out.expect.is_empty() { "file.no_oracle" } else { "file.with_oracle" });
+    rep.count(if out.from_events { "file.model_on_xml_events" } else { "file.model_on_cell_list" });
     rep.add("file.members", members as u64);
     for it in items {
         if let Item::Master { r, c, rect, .. } = it {
